@@ -484,4 +484,80 @@ theorem groupLoop_sound (P : NumPr) (hP : NumExact P) (k0 : Kind) (rel single : 
     have := RunOK.append step1 h2
     simpa [cmdsOf, groupLoop] using this
 
+/-- the input commands one instruction stands for (an instruction with a wrong number of coordinates stands for nothing) -/
+def instrCmds (ins : Instr) : List Cmd :=
+  if ins.cs.length == 0 then (if ins.k == .Z then [⟨.Z, ins.rel, []⟩] else [])
+  else
+    match instrArity ins.k ins.cs.length with
+    | none => []
+    | some di => cmdsOf ins.k ins.rel true (chunks di ins.cs.length ins.cs)
+
+def instrsCmds : List Instr → List Cmd
+  | [] => []
+  | i :: r => instrCmds i ++ instrsCmds r
+
+/-- the coordinates of an instruction carry the exact values of their lexemes (what the scanner produces) -/
+def InstrOk (ins : Instr) : Prop :=
+  ∀ di, instrArity ins.k ins.cs.length = some di → ∀ g ∈ chunks di ins.cs.length ins.cs, CoordsOk ins.k 0 g
+
+theorem copyInstr_sound (P : NumPr) (hP : NumExact P) (st : MSt) (Sin Sout : St) (prev : PrevClass) (ins : Instr)
+    (next : Option Kind) (hb : Base st Sin Sout) (hr : RelP prev st Sin Sout) (hok : InstrOk ins)
+    (hz : hazardsFrom Sin prev (instrCmds ins) = []) :
+    RunOK P st Sin Sout prev (instrCmds ins) (copyInstr P st ins next) := by
+  unfold copyInstr instrCmds at *
+  by_cases h0 : (ins.cs.length == 0) = true
+  · simp only [h0, if_true] at hz ⊢
+    by_cases hZ : (ins.k == Kind.Z) = true
+    · simp only [hZ, if_true] at hz ⊢
+      have hgc : groupsCmds st.ps [zGroup] = [⟨.Z, true, []⟩] := by
+        simp [groupsCmds, groupCmd, zGroup]
+      refine ⟨?_, ⟨?_, ?_, ?_, ?_⟩, ?_, rfl⟩
+      · simp only [hgc, segsFrom, stepCmd, List.append_nil, hb.cin, hb.cout, hb.sin, hb.sout]
+      · simp only [runSpec, stepCmd]; exact hb.sin
+      · simp only [hgc, runSpec, stepCmd]; exact hb.sout
+      · simp only [runSpec, stepCmd]; exact hb.sin
+      · simp only [hgc, runSpec, stepCmd]; exact hb.sout
+      · simp only [classAfter, classify]; trivial
+    · simp only [hZ, Bool.false_eq_true, if_false] at hz ⊢
+      exact RunOK.nil P st Sin Sout prev hb hr
+  · simp only [h0, Bool.false_eq_true, if_false] at hz ⊢
+    cases hdi : instrArity ins.k ins.cs.length with
+    | none => simp only [hdi] at hz ⊢; exact RunOK.nil P st Sin Sout prev hb hr
+    | some di =>
+      simp only [hdi] at hz ⊢
+      obtain ⟨h1, h2, h3⟩ := instrArity_spec _ _ _ hdi
+      apply groupLoop_sound P hP ins.k ins.rel _ next _ st Sin Sout prev true hb hr _ (Classical.em _) hz
+      intro g hg
+      refine ⟨⟨?_, h3⟩, hok di hdi g hg⟩
+      rw [← h1]
+      exact chunks_len di (by rw [h1]; exact arity_pos _ h3) _ _ h2 g hg
+
+theorem runInstrs_sound (P : NumPr) (hP : NumExact P) (final : Option Kind) :
+    ∀ (is : List Instr) (st : MSt) (Sin Sout : St) (prev : PrevClass),
+    Base st Sin Sout → RelP prev st Sin Sout → (∀ i ∈ is, InstrOk i) →
+    hazardsFrom Sin prev (instrsCmds is) = [] →
+    RunOK P st Sin Sout prev (instrsCmds is) (runInstrs P final st is) := by
+  intro is
+  induction is with
+  | nil => intro st Sin Sout prev hb hr _ _; exact RunOK.nil P st Sin Sout prev hb hr
+  | cons i r ih =>
+    intro st Sin Sout prev hb hr hok hz
+    simp only [instrsCmds, hazardsFrom_append, List.append_eq_nil_iff] at hz
+    have h1 := copyInstr_sound P hP st Sin Sout prev i (nextKind r final) hb hr
+      (hok i (by simp)) hz.1
+    have h2 := ih _ _ _ _ h1.base h1.rel (fun j hj => hok j (by simp [hj])) hz.2
+    exact RunOK.append h1 h2
+
+/-- **geometry of the chosen groups**: under the guards (no curve command directly after a closepath, a removed
+    segment or a degenerate curve of its family) the commands the model prints denote the same absolute segments
+    as the input commands, up to `simp1` (zero-length lines dropped, exactly degenerate curves = lines) -/
+theorem groups_geometry (P : NumPr) (hP : NumExact P) (is : List Instr) (final : Option Kind)
+    (hok : ∀ i ∈ is, InstrOk i) (hz : noHazard (instrsCmds is) = true) :
+    (absSegments (groupsCmds {} (groupsOfInstrs P is final))).filterMap simp1 =
+      (absSegments (instrsCmds is)).filterMap simp1 := by
+  have hz' : hazardsFrom {} .normal (instrsCmds is) = [] := by
+    unfold noHazard hazards at hz; simpa using hz
+  have h := runInstrs_sound P hP final is {} {} {} .normal ⟨rfl, rfl, rfl, rfl⟩ ⟨⟨rfl, rfl⟩, ⟨rfl, rfl⟩⟩ hok hz'
+  exact h.segs
+
 end Verif.Proofs.SvgInduct
